@@ -11,7 +11,9 @@ import (
 )
 
 func init() {
-	register("C13", ruleC13GlobalLockset, ruleC13CapturedVars, ruleC13FieldLocks, ruleC13PerQueryState, ruleC13SharedDocument)
+	register("C13", ruleC13GlobalLockset, ruleC13CapturedVars, ruleC13FieldLocks, ruleC13PerQueryState, ruleC13SharedDocument,
+		// WaitGroup/recover discipline of the library's own goroutines (shared with C10): Add before go, Done deferred
+		ruleC10GoClosures, ruleC10LockPairing)
 }
 
 // apiEntries: the functions a caller invokes on the query path.
@@ -46,7 +48,7 @@ func lockHeldAt(fn *ssa.Function, at ssa.Instruction, muTerm string, needWrite b
 }
 
 func ruleC13GlobalLockset(c *Ctx) {
-	c.Doc("c13.global-lockset", "for every package-level variable of map or slice type in package genql: either every access reachable from an API entry is made while the package's mutex is held (Lock dominating with a deferred unlock, or Lock…access…Unlock in one block), or the variable is written only by functions that are not reachable from any API entry (registries filled by init and the exported Register* functions, which the caller must not race with queries)")
+	c.Doc("c13.global-lockset", "for every package-level variable of package genql that can hold shared mutable state (maps, slices, pointers, interfaces such as hash.Hash — all but *regexp.Regexp and sync primitives); a method call on such an object counts as a write: either every access reachable from an API entry is made while the package's mutex is held (Lock dominating with a deferred unlock, or Lock…access…Unlock in one block), or the variable is written only by functions that are not reachable from any API entry (registries filled by init and the exported Register* functions, which the caller must not race with queries)")
 	c.NotDecidedClause("C13: absence of races over all schedules (only the lockset/ownership discipline is decided); cross-talk of values between queries; Register* racing with queries (excluded by the property's own wording)")
 	c.Assume("RegisterFunction/RegisterImmediateFunction/RegisterExternalFunction/Import/RegisterTopLevelFunction are not called concurrently with queries")
 	pk := c.P.SSAPkgs[modPath]
@@ -58,11 +60,11 @@ func ruleC13GlobalLockset(c *Ctx) {
 	var globals []*ssa.Global
 	for _, m := range pk.Members {
 		if g, ok := m.(*ssa.Global); ok {
-			t := g.Type().(*types.Pointer).Elem().Underlying()
-			switch t.(type) {
-			case *types.Map, *types.Slice:
-				globals = append(globals, g)
+			et := g.Type().(*types.Pointer).Elem()
+			if !canHoldRef(et) || concurrencySafeType(et) {
+				continue
 			}
+			globals = append(globals, g)
 		}
 	}
 	sort.Slice(globals, func(i, j int) bool { return globals[i].Name() < globals[j].Name() })
@@ -100,6 +102,14 @@ func ruleC13GlobalLockset(c *Ctx) {
 									}
 								case *ssa.Call:
 									if b, ok := r.Call.Value.(*ssa.Builtin); ok && (b.Name() == "delete" || b.Name() == "clear") {
+										w = true
+									}
+									// a method call on a shared object that is not documented as safe for
+									// concurrent use (hash.Hash, bytes.Buffer, …) mutates it
+									if r.Call.IsInvoke() && r.Call.Value == ssa.Value(in) {
+										w = true
+									}
+									if sc := r.Call.StaticCallee(); sc != nil && sc.Signature.Recv() != nil && len(r.Call.Args) > 0 && r.Call.Args[0] == ssa.Value(in) {
 										w = true
 									}
 								}
@@ -144,8 +154,20 @@ func ruleC13GlobalLockset(c *Ctx) {
 		c.Check(ok, "c13.global-lockset", key, c.P.Pos(g.Pos()), fmt.Sprintf("%d accesses on the query path, all with the mutex held", n), why)
 	}
 	if len(globals) < 3 {
-		c.Unknown("c13.global-lockset", "globals", "-", fmt.Sprintf("only %d map/slice globals found (cache, functions, immediateFunctions, topLevelFunctions expected)", len(globals)))
+		c.Unknown("c13.global-lockset", "globals", "-", fmt.Sprintf("only %d shared mutable globals found (cache, functions, immediateFunctions, topLevelFunctions expected)", len(globals)))
 	}
+}
+
+// concurrencySafeType: types whose methods are documented as safe for concurrent use, or that
+// are synchronisation primitives themselves.
+func concurrencySafeType(t types.Type) bool {
+	s := t.String()
+	for _, ok := range []string{"*regexp.Regexp", "sync.Mutex", "sync.RWMutex", "sync.WaitGroup", "sync.Once", "sync.Map", "sync/atomic."} {
+		if strings.Contains(s, ok) {
+			return true
+		}
+	}
+	return false
 }
 
 // inCycle: block b lies on a CFG cycle.
